@@ -34,6 +34,11 @@ def run(ctx) -> None:
 
     r1 = ctx.rule("R23.1", "each mesh point selected exactly once; incomplete meshes rejected")
     r1.instance(f.short)
+    # whatever the formulation: the selected indices refer to the k-point list that was passed in, never to a mask-filtered copy of it
+    from ..taint import masked_index_escapes
+    for n_, m_, why_ in masked_index_escapes(f.node, fctx(f)[1]):
+        r1.violation(f, n_, f"grid_from_kpoints: {why_}: when the list contains points that are not on the requested mesh (before on-mesh ones) the "
+                     f"returned indices point at other k-points", stmt="positions in a filtered list")
     loops = [s_ for s_ in stmts(f.node) if isinstance(s_, ast.For) and norm(s_.iter) == f"enumerate({kpp})" and isinstance(s_.target, ast.Tuple) and len(s_.target.elts) == 2]
     if len(loops) != 1:
         r1.expect(False, "selection loop located", f, f.node, f"grid_from_kpoints: `for i, k in enumerate({kpp})` not found")
